@@ -327,6 +327,21 @@ func Run(c *sexp.S, out *Out) {
 				continue
 			}
 			out.Put("%s", snapObs(snaps[k]))
+		case "mutsnap":
+			// the host scribbles on a snapshot it holds: nothing else (runner, other snapshots) may notice
+			k := a[0].Int()
+			if k >= len(snaps) {
+				out.Put("NOSNAP")
+				continue
+			}
+			seven := 7.0
+			if snaps[k].Variables != nil {
+				snaps[k].Variables["zz_mut"] = variable.Value{Number: &seven}
+			}
+			if snaps[k].VisitedNodes != nil {
+				snaps[k].VisitedNodes["zz_mut"] = 9
+			}
+			out.Put("%s", snapObs(snaps[k]))
 		case "restore":
 			r := runners[a[0].Int()]
 			k := a[1].Int()
